@@ -1508,6 +1508,41 @@ class SI:
     def __ge__(self, o):
         return self._rel(o, lambda a, b: a >= b)
 
+    def value(self):
+        """concrete value on this path: forks over the values of the symbolic digits (used for
+        arithmetic, e.g. the length of a Hollerith item)"""
+        v = 0
+        for d in self.digits:
+            k = d
+            if type(d) is SC:
+                k = None
+                for c in range(48, 58):
+                    if bool(ceq(d, c)):
+                        k = c
+                        break
+                if k is None:
+                    raise Unsupported("symbolic int with a non-digit character")
+            v = v * 10 + (k - 48)
+        return v
+
+    def __add__(self, o):
+        return self.value() + o
+
+    def __radd__(self, o):
+        return o + self.value()
+
+    def __sub__(self, o):
+        return self.value() - o
+
+    def __rsub__(self, o):
+        return o - self.value()
+
+    def __mul__(self, o):
+        return self.value() * o
+
+    def __rmul__(self, o):
+        return o * self.value()
+
     def __hash__(self):
         c = self.concrete()
         if c is None:
